@@ -45,7 +45,7 @@ def selftest():
            ev("Scalar", [3, 1, 3], [4, 1, 4], "b", "plain"), ev("MappingEnd", [5, 2, 0], [5, 2, 0]), ev("DocumentEnd", [5, 2, 0], [5, 2, 0]), ev("StreamEnd", [5, 2, 0], [5, 2, 0])]
     good = {"k": "POS", "t": t, "be": "x", "evs": evs, "err": [], "marked": []}
     bad1 = json.loads(json.dumps(good)); bad1["evs"][4]["a"] = [3, 1, 2]      # wrong column
-    bad2 = json.loads(json.dumps(good)); bad2["evs"][4]["b"] = [5, 2, 0]      # span does not cover exactly the text
+    bad2 = json.loads(json.dumps(good)); bad2["evs"][4]["b"] = [5, 1, 5]      # span does not cover exactly the text
     bad3 = json.loads(json.dumps(good)); bad3["err"] = [{"at": [3, 1, 3], "words": "x at byte 3 line 1 column 3".split()}]  # 0-based column printed
     write_ndjson(os.path.join(d, "pos.ndjson"), [good, bad1, bad2, bad3])
     r = tlc("Trace_Pos", workers=1, env={"TRACE": os.path.join(d, "pos.ndjson")}, name="selftest_pos")
